@@ -95,6 +95,7 @@ def check_entries(ctx, sig, mat, shape, expected, what):
     if not ctx.check(tuple(mat.shape) == tuple(shape), sig + ":shape", f"{what} has shape {tuple(mat.shape)}, expected {tuple(shape)}"):
         return False
     ent = stored_entries(mat)
+    expected = {k: v for k, v in expected.items() if v != 0}      # a zero weight (zero-length edge) may or may not be stored
     pos = [(i, j) for i, j, _ in ent]
     dup = sorted(set(p for p in pos if pos.count(p) > 1)) if len(set(pos)) != len(pos) else []
     if not ctx.check(not dup, sig + ":duplicate-entries", f"{what}: positions stored more than once: {dup[:6]}"):
